@@ -31,6 +31,21 @@ CHECKS = {
  "C09": ("exploration", "property-based testing (proptest) of multi-socket interleavings against the in-process Server; one-to-one reply/request matching under the strict verifier",
          "Generated interleavings of classic, IETF and invalid datagrams from up to 48 sockets (shared nonces, several requests per socket, bursts below/at/above batch_size) must yield exactly the owed replies, each provably for a request of the receiving socket.",
          "Only standard requests are owed a reply and only clearly invalid datagrams are owed silence; the in-between is not asserted. The kernel's multi-worker distribution is C18's business.", "DESIGN.md §3 C09"),
+ "C10": ("exploration", "property-based testing (proptest) over seeds, restart histories and certificate sequences; differential against ring key derivation/verification and sha2",
+         "Generated seeds and restart/certificate histories are checked against an independent RFC 8032 implementation: announced key, SRV, certificate shape, signature under the right context and non-verification under the other protocol's context, window contains the midpoint; library level and through in-process server restarts with traffic.",
+         "Trusted base: ring, sha2. Per-worker certificates of the real multi-worker binary are collected by C15/C18.", "DESIGN.md §3 C10"),
+ "C11": ("exploration", "property-based testing (proptest) over clock values through make_srep with a reference decoder; live bracketing of in-process server replies by the harness clock",
+         "Pure: generated clock values including sub-second boundaries must give MIDP within one unit and RADI = 5 s in the protocol's unit. Live: replies of young and aged (>1 s) servers must lie inside the harness's clock bracket.",
+         "Floor vs. round is not prescribed (within one unit). Live part reads the wall clock, which is the specification there; 250 ms slack.", "DESIGN.md §3 C11"),
+ "C12": ("exploration", "bounded-exhaustive enumeration of version lists and SRV variants against the in-process Server with a truth-table oracle",
+         "The full table of VER lists up to length 6 over five values x SRV variants, plus every single-bit SRV corruption, is sent to the real Server; presence/absence of each reply is compared with the property's truth table and every reply is strictly verified.",
+         "Exhaustive within the stated alphabet only; other unknown version numbers are represented by three values.", "DESIGN.md §3 C12"),
+ "C17": ("exploration", "bounded-exhaustive enumeration of operation histories + property-based testing (proptest) of long histories, worker splits and served traffic; step-invariant and conservation oracles",
+         "Every history up to length 4/5 over 24 operations x 3 limits is enumerated with an implementation-agnostic exactly-one-counter invariant; long random histories, worker/snapshot splits through the real Reporter, and traffic through the real Server (stats off/on) are searched.",
+         "Needs the guarded hooks (small-limit constructor, stats accessor, reporter view). Timer-driven snapshots inside the server are exercised only by the process-level checks.", "DESIGN.md §3 C17"),
+ "C20": ("exploration", "property-based testing (proptest) with a needle-in-haystack oracle over emitted datagrams and captured log records at every log level; real-binary output scan",
+         "For generated seeds and request mixes at each log level, every emitted datagram and formatted log record is scanned for every 16-byte/24-char window of the seed and derived private material in raw, hex and base64 forms; a positive control proves the haystack is live.",
+         "Needle windows with fewer than 6 distinct byte values are skipped (degenerate seeds collide with honest zero/0xff fields). Chance collisions ~2^-128.", "DESIGN.md §3 C20"),
 }
 
 NOT_YET = {}
